@@ -1,130 +1,80 @@
-// NOT REGISTERED (probed: the single-change harness exhausts 24 GB in the solver; see DESIGN.md C14). Kept for a later, smaller attempt.
+// NOT REGISTERED (probed three times: UTF-8 documents <= 4 bytes, ASCII <= 3 bytes, ASCII <= 2 bytes with two changes - the solver runs out of memory at 24-26 GB each time; see DESIGN.md C14).
 //! In-crate Kani harness for handlers/sync.rs (mounted as `handlers::sync::verif_harness`).
+//! (A first version over arbitrary UTF-8 documents of <= 4 bytes exhausted 24 GB in the solver; this one is
+//!  restricted to ASCII documents - the UTF-16 side of positions is covered by the lsp_utils harnesses - and keeps
+//!  the reference on fixed byte arrays.)
 use super::apply_content_changes;
 use tower_lsp::lsp_types::{Position, Range, TextDocumentContentChangeEvent};
 
-/// LSP 3.17 reference: offset of (line, UTF-16 column); a column past the line end clamps to the line end;
-/// `None` when the line does not exist. `inside_pair` reports a column that splits a surrogate pair.
-fn ref_offset(s: &str, line: u32, character: u32) -> (Option<usize>, bool) {
+const CAP: usize = 4;
+
+/// offset of (line, character) in the ASCII text buf[..len]; a column past the line end clamps to the line end
+fn ref_offset(buf: &[u8; CAP], len: usize, line: u32, character: u32) -> Option<usize> {
     let mut cur_line = 0u32;
     let mut col = 0u32;
-    let mut inside_pair = false;
-    for (i, c) in s.char_indices() {
-        if cur_line == line {
-            if col == character { return (Some(i), false); }
-            if c == '\n' { return (Some(i), false); }
-            if c.len_utf16() == 2 && character == col + 1 { inside_pair = true; }
-        }
-        if c == '\n' { cur_line += 1; col = 0; } else { col += c.len_utf16() as u32; }
+    let mut i = 0;
+    while i < len {
+        if cur_line == line && (col == character || buf[i] == b'\n') { return Some(i); }
+        if buf[i] == b'\n' { cur_line += 1; col = 0; } else { col += 1; }
+        i += 1;
     }
-    if cur_line == line { (Some(s.len()), inside_pair) } else { (None, inside_pair) }
+    if cur_line == line { Some(len) } else { None }
+}
+
+/// apply one ranged change on a fixed buffer; returns new length or None (rejected)
+fn ref_apply(buf: &mut [u8; CAP], len: usize, p: [u32; 4], t: u8, tlen: usize) -> Option<usize> {
+    let a = ref_offset(buf, len, p[0], p[1])?;
+    let b = ref_offset(buf, len, p[2], p[3])?;
+    if a > b { return None; }
+    let old = *buf;
+    let mut n = a;
+    if tlen == 1 { buf[n] = t; n += 1; }
+    let mut i = b;
+    while i < len { buf[n] = old[i]; n += 1; i += 1; }
+    Some(n)
 }
 
 // @verif prop=C14 kernel=K2 tiers=quick,thorough timeout=3000 mem=24
-// @verif what=apply_content_changes with one ranged change: the resulting text equals prefix + new text + suffix cut at the UTF-16 positions of the LSP range (or the change is rejected when a position does not exist or start > end); never a panic (slicing on a non-boundary)
+// @verif what=apply_content_changes with TWO ranged changes in one notification on an ASCII document: each change replaces exactly [start, end) with its text and the SECOND range is interpreted on the text produced by the first (the evolving text); inverted or non-existent ranges reject the notification; never a panic
 // @verif fns=trust_lsp::handlers::sync::apply_content_changes, lsp_utils::position_to_offset
-// @verif bound=every valid UTF-8 document of <= 4 bytes, every range with lines and characters <= 4, replacement text = every valid UTF-8 string of <= 2 bytes
-// @verif assume=neither range position splits a surrogate pair
+// @verif bound=every ASCII document of <= 2 bytes (incl. line feeds), two changes with lines and characters <= 2 and replacement texts of 0 or 1 ASCII byte
+// @verif outside=non-ASCII documents in edit sequences (probed: 24 GB); the UTF-16 column arithmetic itself is covered by the lsp_utils harnesses
 #[kani::proof]
-#[kani::unwind(8)]
-fn c14_single_ranged_change_matches_utf16_reference() {
-    const L: usize = 4;
-    let bytes: [u8; L] = kani::any();
-    let len: usize = kani::any();
-    kani::assume(len <= L);
-    let Ok(s) = core::str::from_utf8(&bytes[..len]) else { return; };
-    let tb: [u8; 2] = kani::any();
-    let tlen: usize = kani::any();
-    kani::assume(tlen <= 2);
-    let Ok(t) = core::str::from_utf8(&tb[..tlen]) else { return; };
-    let (sl, sc, el, ec): (u32, u32, u32, u32) = (kani::any(), kani::any(), kani::any(), kani::any());
-    kani::assume(sl <= 4 && sc <= 4 && el <= 4 && ec <= 4);
-    let (so, sp) = ref_offset(s, sl, sc);
-    let (eo, ep) = ref_offset(s, el, ec);
-    kani::assume(!sp && !ep);
-    let change = TextDocumentContentChangeEvent {
-        range: Some(Range { start: Position { line: sl, character: sc }, end: Position { line: el, character: ec } }),
-        range_length: None,
-        text: t.to_string(),
-    };
-    let changes = [change];
-    let got = apply_content_changes(s, &changes);
-    match (so, eo) {
-        (Some(a), Some(b)) if a <= b => {
-            match &got {
-                Some(g) => {
-                    let gb = g.as_bytes();
-                    assert!(gb.len() == a + tlen + (len - b), "C14: edited text has the wrong length");
-                    let mut i = 0;
-                    while i < gb.len() {
-                        let expect = if i < a { bytes[i] } else if i < a + tlen { tb[i - a] } else { bytes[b + (i - a - tlen)] };
-                        assert!(gb[i] == expect, "C14: edited text differs from the editor's text");
-                        i += 1;
-                    }
-                }
-                None => assert!(false, "C14: a valid ranged change was rejected"),
-            }
-        }
-        _ => assert!(got.is_none(), "C14: a change with a non-existent or inverted range was applied"),
-    }
-    kani::cover!(got.is_some() && len == 4 && bytes[0] >= 0xF0);
-    kani::cover!(got.is_none());
-    std::mem::forget(got);
-    std::mem::forget(changes);
-}
-
-/// reference application of one ranged change (UTF-16 positions) on `s`
-fn ref_apply(s: &str, sl: u32, sc: u32, el: u32, ec: u32, t: &str) -> (Option<String>, bool) {
-    let (so, sp) = ref_offset(s, sl, sc);
-    let (eo, ep) = ref_offset(s, el, ec);
-    match (so, eo) {
-        (Some(a), Some(b)) if a <= b => {
-            let mut out = String::with_capacity(s.len() + t.len());
-            out.push_str(&s[..a]);
-            out.push_str(t);
-            out.push_str(&s[b..]);
-            (Some(out), sp || ep)
-        }
-        _ => (None, sp || ep),
-    }
-}
-
-// @verif prop=C14 kernel=K2 tiers=quick,thorough timeout=3000 mem=24
-// @verif what=apply_content_changes with TWO ranged changes in one notification: the second range is interpreted on the text produced by the first (the evolving text), as the LSP specification requires
-// @verif fns=trust_lsp::handlers::sync::apply_content_changes
-// @verif bound=every ASCII/UTF-8 document of <= 3 bytes, two changes with lines and characters <= 3 and replacement texts of <= 1 byte (valid UTF-8)
-// @verif assume=no range position splits a surrogate pair
-#[kani::proof]
-#[kani::unwind(8)]
+#[kani::unwind(10)]
 fn c14_two_changes_apply_to_evolving_text() {
-    const L: usize = 3;
-    let bytes: [u8; L] = kani::any();
+    let mut buf: [u8; CAP] = kani::any();
     let len: usize = kani::any();
-    kani::assume(len <= L);
-    let Ok(s) = core::str::from_utf8(&bytes[..len]) else { return; };
-    let t1b: [u8; 1] = kani::any(); let t1l: usize = kani::any(); kani::assume(t1l <= 1);
-    let t2b: [u8; 1] = kani::any(); let t2l: usize = kani::any(); kani::assume(t2l <= 1);
-    let Ok(t1) = core::str::from_utf8(&t1b[..t1l]) else { return; };
-    let Ok(t2) = core::str::from_utf8(&t2b[..t2l]) else { return; };
+    kani::assume(len <= 2);
+    let mut i = 0; while i < CAP { kani::assume(buf[i] < 0x80); i += 1; }
+    let s = unsafe { core::str::from_utf8_unchecked(core::slice::from_raw_parts(buf.as_ptr(), len)) };
+    let (t1, t2): (u8, u8) = (kani::any(), kani::any());
+    let (l1, l2): (usize, usize) = (kani::any(), kani::any());
+    kani::assume(t1 < 0x80 && t2 < 0x80 && l1 <= 1 && l2 <= 1);
     let p: [u32; 8] = kani::any();
-    let mut i = 0; while i < 8 { kani::assume(p[i] <= 3); i += 1; }
-    let (mid, bad1) = ref_apply(s, p[0], p[1], p[2], p[3], t1);
-    kani::assume(!bad1);
-    let expect: Option<String> = match &mid {
-        Some(m) => { let (fin, bad2) = ref_apply(m.as_str(), p[4], p[5], p[6], p[7], t2); kani::assume(!bad2); fin }
+    let mut i = 0; while i < 8 { kani::assume(p[i] <= 2); i += 1; }
+    let t1a = [t1]; let t2a = [t2];
+    let mk = |q: [u32; 4], t: &[u8; 1], l: usize| TextDocumentContentChangeEvent {
+        range: Some(Range { start: Position { line: q[0], character: q[1] }, end: Position { line: q[2], character: q[3] } }),
+        range_length: None,
+        text: unsafe { core::str::from_utf8_unchecked(&t[..l]) }.to_string() };
+    let changes = [mk([p[0], p[1], p[2], p[3]], &t1a, l1), mk([p[4], p[5], p[6], p[7]], &t2a, l2)];
+    let got = apply_content_changes(s, &changes);
+    // reference on a scratch copy
+    let mut r = buf;
+    let expect = match ref_apply(&mut r, len, [p[0], p[1], p[2], p[3]], t1, l1) {
+        Some(n1) => ref_apply(&mut r, n1, [p[4], p[5], p[6], p[7]], t2, l2),
         None => None,
     };
-    let mk = |a: u32, b: u32, c: u32, d: u32, t: &str| TextDocumentContentChangeEvent {
-        range: Some(Range { start: Position { line: a, character: b }, end: Position { line: c, character: d } }),
-        range_length: None, text: t.to_string() };
-    let changes = [mk(p[0], p[1], p[2], p[3], t1), mk(p[4], p[5], p[6], p[7], t2)];
-    let got = apply_content_changes(s, &changes);
-    match (&got, &expect) {
-        (Some(g), Some(e)) => assert!(g.as_bytes() == e.as_bytes(), "C14: the second change of a notification was not applied to the text produced by the first"),
+    match (&got, expect) {
+        (Some(g), Some(n)) => {
+            let gb = g.as_bytes();
+            assert!(gb.len() == n, "C14: edited text has the wrong length (second change not applied to the evolving text?)");
+            let mut i = 0; while i < n { assert!(gb[i] == r[i], "C14: edited text differs from the editor's text"); i += 1; }
+        }
         (None, None) => {}
         _ => assert!(false, "C14: acceptance of a two-change notification differs from the reference"),
     }
-    kani::cover!(got.is_some() && t1l == 1 && len == 3);
+    kani::cover!(got.is_some() && l1 == 1 && len == 2 && p[5] > 0);
     kani::cover!(got.is_none());
-    std::mem::forget(got); std::mem::forget(expect); std::mem::forget(mid); std::mem::forget(changes);
+    std::mem::forget(got); std::mem::forget(changes);
 }
